@@ -22,7 +22,9 @@ Head configurations (`head`, compiled get_*/unify_* instructions): the pair is u
 clause whose head carries t2.  Family `tailshare` (always with head configurations) and the stored
 cases corpus/C10/*.json aim at WRITE mode: a variable meets a compound of the head that contains
 that variable again (`h(V) ` against head `h([a|V])`), so the occurs check has to fail while the
-head structure is being written (finding C10-2).
+head structure is being written (finding C10-2).  Directed pairs `strdot_pairs()` put a '.'/2
+STRUCTURE cell (`(H '.' T)` under op(200,xfy,'.')) against list cells and partial strings
+(findings C10-3, C10-4).
 """
 import re
 import struct
@@ -1203,7 +1205,7 @@ def directed_cases():
 
 def strdot_pairs():
     """the list cell H.T as a '.'/2 STRUCTURE cell (node 'sd') against list cells, partial strings,
-    other structure cells, in both argument orders and one level down (the PDL order flips)."""
+    other structure cells, in both argument orders and one level down (other arms of unify.rs)."""
     V = lambda n: ('v', n)
     A, B, C = V("V0"), V("V1"), V("V2")
     i1, i2, a = ('i', 1), ('i', 2), ('a', 'a')
